@@ -17,6 +17,11 @@ def main():
         ctx.counters['ambient.hashseed-%s' % ctx.ambient['hashseed']] += 1
         ctx.counters['ambient.python-O' if ctx.ambient.get('optimize') else 'ambient.asserts-on'] += 1
         ctx.counters['ambient.cwd-%s' % ('verif' if ctx.ambient['cwd'] == core.VERIF else 'repo' if ctx.ambient['cwd'] == core.REPO else 'root')] += 1
+    if ctx.ambient and ctx.ambient.get('env'):
+        ctx.counters['ambient.env-%s' % ctx.ambient['env']] += 1
+        if ctx.ambient['env'] == 'debug-logging':
+            import logging
+            logging.basicConfig(level=logging.DEBUG, handlers=[logging.NullHandler()])
     cover.start()          # before athlib is imported: line coverage of the anchored functions (report only)
     core.import_athlib()
     mod = importlib.import_module('vf.props.%s' % prop.lower())
